@@ -318,3 +318,38 @@ Theorem C15_rebuild_stable_response_bool : forall p, rebuildable_resp p = true -
     headers p' = headers p /\ bodyb p' = bodyb p /\ is_chunked_encoded p' = is_chunked_encoded p.
 Proof. exact rebuild_stable_response_bool. Qed.
 Print Assumptions C15_rebuild_stable_response_bool.
+
+(* ---------------------------------------------------------------------------------------------- *)
+(* update_body, re-serialise, parse: content-encodings and transfer-encodings respected            *)
+
+(* For every gzip with gunz (gz x) = x, every re-serialisable parsed request p (decidable domain
+   above), every new body and content type (value without CR, stripped; stored length below the
+   int() digit limit): update_body succeeds, build() re-serialises, and the result parses to a
+   COMPLETE request with the same method/version and chunked flag, Content-Type = the new one, and
+   body = the new data — gzip-compressed iff the message says Content-Encoding: gzip, in which case
+   it decompresses to the data.  Chunked messages included (the body is chunk-encoded exactly once). *)
+Theorem C15_update_body_rebuild_request : forall (gz gunz : bytes -> bytes) ua p data ct,
+  (forall x, gunz (gz x) = x) ->
+  rebuildable_req p = true -> ok_value ct = true -> len_ok (stored_body gz p data) = true ->
+  exists p1 raw p',
+    update_body gz p data ct = Ok p1 /\ build ua p1 [] false None = Ok raw /\
+    parse (new_parser REQUEST_PARSER) raw = Ok p' /\ state p' = COMPLETE /\ buffer p' = None /\
+    method p' = method p /\ version p' = version p /\
+    bodyb p' = stored_body gz p data /\
+    (says_gzip p = true -> gunz (bodyb p') = data) /\ (says_gzip p = false -> bodyb p' = data) /\
+    header p' H_CONTENT_TYPE = Ok ct /\ is_chunked_encoded p' = is_chunked_encoded p.
+Proof. exact update_body_rebuild_request. Qed.
+Print Assumptions C15_update_body_rebuild_request.
+
+Theorem C15_update_body_rebuild_response : forall (gz gunz : bytes -> bytes) p data ct,
+  (forall x, gunz (gz x) = x) ->
+  rebuildable_resp p = true -> ok_value ct = true -> len_ok (stored_body gz p data) = true ->
+  exists p1 raw p',
+    update_body gz p data ct = Ok p1 /\ build_response p1 = Ok raw /\
+    parse (new_parser RESPONSE_PARSER) raw = Ok p' /\ state p' = COMPLETE /\ buffer p' = None /\
+    version p' = version p /\ code p' = code p /\
+    bodyb p' = stored_body gz p data /\
+    (says_gzip p = true -> gunz (bodyb p') = data) /\ (says_gzip p = false -> bodyb p' = data) /\
+    header p' H_CONTENT_TYPE = Ok ct /\ is_chunked_encoded p' = is_chunked_encoded p.
+Proof. exact update_body_rebuild_response. Qed.
+Print Assumptions C15_update_body_rebuild_response.
